@@ -92,8 +92,11 @@ def _c19(tier, replay, seed, work, t0):
     # deep tier (F-C19-1): many consecutive removed fields; a stack overflow aborts the process -> child process
     deep = []
     if not replay:
-        for n in ([30000] if quick else [30000, 200000, 1000000]):
-            r = subprocess.run([binpath, "frame", "--deep", str(n)], capture_output=True, text=True, timeout=600)
+        for n in ([30000] if quick else [30000, 100000]):  # removal by repeated get() is quadratic
+            try:
+                r = subprocess.run([binpath, "frame", "--deep", str(n)], capture_output=True, text=True, timeout=900)
+            except subprocess.TimeoutExpired:
+                raise C.ToolError(f"deep frame case n={n} timed out")
             if r.returncode != 0 or not r.stdout.strip():
                 deep.append({"n": n, "outcome": "aborted", "rc": r.returncode})
                 verdict.add(prop, f"iterating / counting a frame after removing {n} consecutive fields aborted the process (rc={r.returncode}): hole skipping must not recurse", "", {"id": -n, "deep": n})
